@@ -1411,6 +1411,7 @@ C18_PROF = {'methods': [('ms', 'rk'), ('ms', 'euler'), ('ss', 'rk'), ('dc', 'rk'
 @register
 class C18(Check):
     pid = "C18"
+    level = "other"
     slices = ["roundtrip-single-stage", "roundtrip-multi-stage", "original-undamaged"]
     uses_generated = True
 
